@@ -17,7 +17,7 @@ REQUIRED_THEOREMS = ['Usid.C04.wf_implies_consistent', 'Usid.C04.model_trace_wf'
                      'Usid.C04.resume_recomputes_only_unmarked', 'Usid.C04.durable_marks',
                      'Usid.C04.durable_marks_model', 'Usid.C04.durable_marks_needs_results_flush',
                      'Usid.C04.model_trace_checkpointed', 'Usid.C04.checkpointed_implies_wf']
-RULE = ('[also: an older complete group of the same tool with other parameters next to the group at work] [also: the map function itself raising on its first / middle / last call, then compute(override=True) on that survivor] [also: interrupted groups in the LEGACY form - last_pixel attribute only, the status dataset is created by the resumed run] random (N, M, mask, batch, same-file/separate target, fresh/resumed); the clean run is traced through wrappers '
+RULE = ('[also: compute() called again ON THE SAME OBJECT after an ordinary error] [also: an older complete group of the same tool with other parameters next to the group at work] [also: the map function itself raising on its first / middle / last call, then compute(override=True) on that survivor] [also: interrupted groups in the LEGACY form - last_pixel attribute only, the status dataset is created by the resumed run] random (N, M, mask, batch, same-file/separate target, fresh/resumed); the clean run is traced through wrappers '
         'around h5py file-modifying calls; then an interruption is injected before EVERY event index - once as a kill-like '
         'stop (graceful survivor after closing the file, kill survivor = the copy taken at the last flush) and once as an '
         'ORDINARY exception raised by that call, after which the library\'s own handlers run (exception survivor); all are checked for '
@@ -106,7 +106,7 @@ def _copy(d_from, d_to, separate):
         shutil.copy(os.path.join(d_from, fn), os.path.join(d_to, fn))
 
 
-def _attempt(d, inp, batch, crash_at=None, snap_dir=None, soft=False, map_raise=None, override=False):
+def _attempt(d, inp, batch, crash_at=None, snap_dir=None, soft=False, map_raise=None, override=False, again=False):
     """one construction + compute() in directory d; returns dict"""
     separate = inp['separate']
     src, tgt = os.path.join(d, 'src.h5'), os.path.join(d, 'tgt.h5')
@@ -133,7 +133,15 @@ def _attempt(d, inp, batch, crash_at=None, snap_dir=None, soft=False, map_raise=
             kw = {'h5_target_group': ft['T']} if ft is not None else {}
             p = RowProc(f['G/main'], parms={'a': 1}, cores=1, **kw)
             p._max_pos_per_read = batch
-            grp = p.compute(override=True) if override else p.compute()
+            try:
+                grp = p.compute(override=True) if override else p.compute()
+            except (procs.MapFault, procs.SoftFault):
+                if not again:
+                    raise
+                # the notebook workflow: the SAME object is asked to compute() again after the error
+                out['crashed'] = True
+                os.environ.pop(procs.RAISE_ENV, None)
+                grp = p.compute()
             out['group'] = grp.name
     except procs.Crash:
         out['crashed'] = True
@@ -393,6 +401,30 @@ def run_impl(inp, work):
             rec['survivor'] = r
         obs['mapfault'].append(rec)
         shutil.rmtree(xd, ignore_errors=True)
+    # ---- compute() called AGAIN ON THE SAME OBJECT after an ordinary error (map function / a file-modifying call that
+    #      comes after the first result was written, i.e. once the results group is complete) --------------------------
+    obs['same_object'] = []
+    first_w = next((j for j, e in enumerate(obs['model_events']) if e['e'] == 'w'), None)
+    pts = []
+    if first_w is not None and not inp.get('tail'):
+        # model events and observed events are not index-aligned: map back through `prefix`
+        first_obs = next((j for j in range(L) if prefix[j] >= first_w), L)
+        span = list(range(first_obs + 1, L))
+        pts = span[::max(1, len(span) // 4)][:4]
+    for what, arg in [('map', k_) for k_ in (sorted({0, max(0, npend - 1)}) if (npend and not inp.get('tail')) else [])] + \
+            [('event', j) for j in pts]:
+        sd = os.path.join(work, 'so')
+        if os.path.exists(sd):
+            shutil.rmtree(sd)
+        _copy(base, sd, sep)
+        a = _attempt(sd, inp, inp['batch'], again=True, **({'map_raise': arg} if what == 'map' else {'crash_at': arg, 'soft': True}))
+        groups = _read_groups(sd, sep)
+        st, rs = groups.get(a['group'], (None, None)) if a['group'] else (None, None)
+        obs['same_object'].append({'what': what, 'at': arg, 'raised': a['crashed'], 'error': a['error'],
+                                   'status_done': st == [1] * inp['n'],
+                                   'results_ok': _results_ok(inp, rs, final, prior, not inp['fresh']),
+                                   'calls': len(a['calls'])})
+        shutil.rmtree(sd, ignore_errors=True)
     # ---- successive interruptions -------------------------------------------------------------------
     if inp['multi']:
         md = os.path.join(work, 'multi')
@@ -536,6 +568,11 @@ def oracle(inp, obs):
             if res.get('survivor_has_status') and not res['same_group']:
                 fails.append('resume-group-mapfault: the interrupted group has a progress record but the computation went '
                              'on in another group (%s)' % where)
+    for rec in obs.get('same_object', []):
+        if rec['error'] or not rec['status_done'] or not rec['results_ok']:
+            fails.append('same-object-resume: compute() called again on the same object after an error (%s %s) did not end '
+                         'like the uninterrupted run: error %s, all marked %s, results %s (%s)'
+                         % (rec['what'], rec['at'], rec['error'], rec['status_done'], rec['results_ok'], tag))
     if obs['multi']:
         mu = obs['multi']
         for s in mu['steps']:
